@@ -107,6 +107,8 @@ def make_device(nfc, clf_ref, rec, rng_delay):
             self._enter("close")
             self.closed = True
             self._leave()
+            if getattr(self, "fail_close", False):
+                raise IOError(5, "scripted: the reader was unplugged while closing")
 
         def mute(self):
             self._enter("mute"); self._leave()
@@ -286,7 +288,17 @@ def run(ck):
     delay = [0.0]
     FakeDevice = make_device(nfc, clf_ref, rec, lambda: delay[0] if delay[0] and rng.random() < 0.3 else 0)
     orig_connect = nfc.clf.device.connect
-    nfc.clf.device.connect = lambda path: FakeDevice()
+
+    def fake_connect(path):
+        # driver discovery / initialisation talks to the hardware: it must happen under the lock too
+        clf = clf_ref[0]
+        locked = clf is not None and clf.lock.locked()
+        with rec.mutex:
+            rec.calls.append(("connect", locked, True, False, threading.current_thread().name))
+            if clf is not None and not locked:
+                rec.violations.append(("driver-call-without-lock", "device.connect"))
+        return FakeDevice()
+    nfc.clf.device.connect = fake_connect
     real_time = nfc.clf.time
 
     class FastClock(object):
@@ -301,7 +313,7 @@ def run(ck):
         def __getattr__(self, name):
             return getattr(real_time, name)
     nfc.clf.time = FastClock()
-    static_methods = {re.sub(r" \(.*", "", s[2]) for s in tr.sites}
+    static_methods = {re.sub(r" \(.*", "", s[2]) for s in tr.sites} | {"connect"}
     seen = set()
     try:
         clf = nfc.clf.ContactlessFrontend()
@@ -455,6 +467,33 @@ def run(ck):
             raise Infra("long-call scenario did not finish")
         for c in rec.calls[before:]:
             ck.case(("long-call", c[0], c[4], c[1], c[2], c[3]), True, "long-driver-call")
+        dev.listen_tta = orig_listen
+        # a driver whose close() fails: afterwards the frontend must not keep using that driver object
+        if clf.device is None:
+            clf.open("fake")
+        dead = clf.device
+        dead.fail_close = True
+        before = len(rec.calls)
+        try:
+            clf.close()
+        except IOError:
+            pass
+        for name, fn in eps.items():
+            if name == "close_open":
+                continue
+            try:
+                fn()
+            except (IOError, nfc.clf.Error, ValueError, AssertionError):
+                pass
+            except (AttributeError, TypeError) as e:
+                rec.violations.append(("closed-device-used", name + ": " + str(e)[:60]))
+        try:
+            clf.close()
+        except IOError:
+            pass
+        for c in rec.calls[before:]:
+            ck.case(("failed-close", c[0], c[1], c[2]), True, "after-failed-driver-close")
+        clf.open("fake")
     finally:
         nfc.clf.device.connect = orig_connect
         nfc.clf.time = real_time
